@@ -77,6 +77,12 @@ def classify_ref(op, desc, shapes, sizes):
     try:
         ins, outs = R.parse(desc)
     except R.ParseError:
+        # RefSem does not read nested '->' / ',' (they are related to their top-level forms by C07): such strings are not judged here
+        depth = 0
+        for i, ch in enumerate(desc):
+            if ch in "([": depth += 1
+            elif ch in ")]": depth -= 1
+            elif depth > 0 and (ch == "," or desc.startswith("->", i)): return "unknown"
         return "illformed:syntax"
     try:
         R.check_brackets(ins + (outs or []))
@@ -104,7 +110,8 @@ def classify_ref(op, desc, shapes, sizes):
 
 
 def _has_bracket(items):
-    return any(isinstance(n, R.Br) for n in R.walk(items))
+    # empty brackets '[]' are dropped by the notation (they mark nothing)
+    return any(isinstance(n, R.Br) and any(isinstance(x, (R.Axis, R.Num, R.Ell)) for x in R.walk(n.items)) for n in R.walk(items))
 
 
 def rule_violation(op, ins, outs):
@@ -129,7 +136,9 @@ def judge(op, desc, arrays, kw, ref, hist, bad, origin):
                         f"einx.{op}({desc!r}, shapes={shapes}, {({k: kw[k] for k in kw})}) [{origin}]: {msg}", {"op": op, "desc": desc, "shapes": [list(s) for s in shapes], "kw": _jsonable(kw)}))
     if kind == "raise":
         hist[f"raise:{cls}"] += 1
-        if cls in INTERNAL or cls == "Timeout":
+        if cls == "Timeout":
+            hist["inconclusive-timeout"] += 1          # termination is not C03's claim (30 s limit, machine may be loaded)
+        elif cls in INTERNAL:
             v("internal-exception", f"raised {cls} at {site}")
         elif cls not in DOCUMENTED and cls not in ("CallOperationError", "ImportBackendError"):
             v("undocumented-exception", f"raised {cls} at {site}")
@@ -167,11 +176,12 @@ def work_tokens(unit):
             try:
                 R.parse(s); rsyn = True
             except R.ParseError:
-                rsyn = False
+                rsyn = classify_ref("id", s, [], {}) == "unknown"       # nested '->' / ',': not judged syntactically
             for op in ENTRY_OPS:
                 for arrs in ([spy(x2)] * n, [spy(x1)] * n):
                     shapes = [a.shape for a in arrs]
                     ref = classify_ref(op if op != "rearrange" else "id", s, shapes, {}) if rsyn else "illformed:syntax"
+                    if ref.startswith("illformed:syntax") and rsyn: ref = "unknown"
                     if ref == "maybe": ref = "unknown"
                     judge(op, s, arrs, {}, ref, hist, bad, "token string")
             for f in ("solve_axes", "solve_shapes", "matches", "check"):
